@@ -30,7 +30,7 @@ PLANS["C01"] = {
     "packages": ["vudp"],
     "parallel": 16,
     "steps": lambda tier, seed: udp_swarm_steps(tier),
-    "min_evaluations": {"quick": 50000, "thorough": 1000000},
+    "min_evaluations": {"quick": 30000, "thorough": 300000},
     "assumptions": [
         "sequential histories only (C04 covers concurrency)",
         "reference model written from the property statement (vcore::model)",
@@ -56,7 +56,7 @@ PLANS["C07"] = {
     "packages": ["vhttp"],
     "parallel": 16,
     "steps": lambda tier, seed: swarm_steps("http_swarm", "http_swarm", tier),
-    "min_evaluations": {"quick": 50000, "thorough": 1000000},
+    "min_evaluations": {"quick": 30000, "thorough": 300000},
     "assumptions": ["sequential histories on one swarm worker (C16 covers routing across workers)", "reference model vcore::model"],
     "level_text": "Exploration: the HTTP swarm worker's storage is driven through random announce/scrape/clean histories (both families, mapped sources, all events, numwant absent/0/n, inline(<=4)<->heap switches, repeated hashes, scrapes beyond max_scrape_torrents, stops on unknown torrents) under a mock clock and compared with the reference model after every operation, including the stored torrent count after each clean.",
     "level_note": "Trusted: the reference model, the re-export hook (verif_api) exposing the otherwise private storage module unchanged, the mock clock hook.",
@@ -71,7 +71,7 @@ PLANS["C08"] = {
     "packages": ["vws"],
     "parallel": 16,
     "steps": lambda tier, seed: swarm_steps("ws_swarm", "ws_swarm", tier),
-    "min_evaluations": {"quick": 50000, "thorough": 1000000},
+    "min_evaluations": {"quick": 30000, "thorough": 300000},
     "assumptions": ["storage level: connection-closed events carry exactly the pairs the closing connection owns in the model; what a real socket worker retracts is decided on the live tracker (C17 engine)"],
     "level_text": "Exploration: random histories of announces (all events, left absent/0/positive, offers, answers), scrapes, connection closes and cleans from connections on two socket workers whose slot-map keys coincide, checked after every operation against a reference tracker with per-connection ownership.",
     "level_note": "Trusted: reference model vcore::wsmodel, storage re-export hook, mock clock hook.",
@@ -86,7 +86,7 @@ PLANS["C09"] = {
     "packages": ["vws"],
     "parallel": 16,
     "steps": lambda tier, seed: swarm_steps("ws_swarm", "ws_swarm", tier),
-    "min_evaluations": {"quick": 50000, "thorough": 1000000},
+    "min_evaluations": {"quick": 30000, "thorough": 300000},
     "assumptions": ["two situations the statement leaves open are don't-care (either forward to the offerer or error to the answerer): same offer id forwarded twice to one receiver; offerer left and re-announced since the forward"],
     "level_text": "Exploration: every OutMessage emitted by the real storage for announces with 0..6 offers and/or an answer is checked against the reference model: number, order, labels, distinct receivers and addressing of forwarded offers; answers forwarded exactly when an expectation is outstanding (expired-but-uncleaned counts as outstanding), otherwise error to the answerer or nothing.",
     "level_note": "Trusted: reference model vcore::wsmodel; recipients are adopted from the observed legal choice.",
@@ -124,7 +124,7 @@ PLANS["C13"] = {
     "parallel": 16,
     "steps": lambda tier, seed: ([{"name": "codec_udp", "bin": "codec_udp", "args": ["--messages", "300000", "--budget_s", "20"]}] if tier == "quick"
                                  else shards("codec_udp", "codec_udp", 16, ["--messages", "100000000", "--budget_s", "100"])),
-    "min_evaluations": {"quick": 500000, "thorough": 5000000},
+    "min_evaluations": {"quick": 300000, "thorough": 2000000},
     "assumptions": ["reference codec written from the BEP 15 tables (vproto::refudp)", "reply ports are >= 1 in generated replies"],
     "level_text": "Exploration: every message kind with boundary values (0, +-1, MIN, MAX) and random fill is written by the crate and compared byte for byte with an independent BEP 15 encoder, reference bytes are parsed by the crate and compared field by field (announces with 0..64 extension bytes; replies of both families with 0..300 peers), every truncation length / unknown action / event / protocol id bit / port 0 / empty or ragged hash list must be rejected with the request's own ids where answerable, and the scrape cut is checked for every limit 0..255 x count.",
     "level_note": "Trusted: the reference codec (about 250 lines of explicit offsets).",
@@ -140,7 +140,7 @@ PLANS["C14"] = {
     "parallel": 16,
     "steps": lambda tier, seed: ([{"name": "codec_http", "bin": "codec_http", "args": ["--messages", "80000", "--budget_s", "20"]}] if tier == "quick"
                                  else shards("codec_http", "codec_http", 16, ["--messages", "100000000", "--budget_s", "100"])),
-    "min_evaluations": {"quick": 200000, "thorough": 5000000},
+    "min_evaluations": {"quick": 100000, "thorough": 1000000},
     "assumptions": ["reply counters are generated up to i64::MAX (bencode integers are read back as i64 by the bundled client)", "keys are generated within the parser's documented 100-byte cap; longer keys must be rejected",
                     "raw '=' '&' '%' inside values are not well-formed and are always percent-encoded by the reference writer"],
     "level_text": "Exploration: library-written announce/scrape requests parse back equal for all events and optional fields; reference-written query strings in random parameter order with unknown keys and identifiers written raw (Latin-1), %xx or %XX parse to the intended values; identifier strings of nine classes (valid, 19/21 units, truncated or non-hex escapes, characters above U+00FF raw or as hex digits) are accepted iff they denote exactly 20 bytes; every reply is byte-identical to an independent canonical encoder, passes a strict decoder and parses back equal.",
@@ -157,7 +157,7 @@ PLANS["C15"] = {
     "parallel": 16,
     "steps": lambda tier, seed: ([{"name": "codec_ws", "bin": "codec_ws", "args": ["--messages", "100000", "--budget_s", "20"]}] if tier == "quick"
                                  else shards("codec_ws", "codec_ws", 16, ["--messages", "100000000", "--budget_s", "100"])),
-    "min_evaluations": {"quick": 200000, "thorough": 5000000},
+    "min_evaluations": {"quick": 100000, "thorough": 1000000},
     "assumptions": ["independent JSON reader vcore::json decides what the emitted text denotes"],
     "level_text": "Exploration: every InMessage/OutMessage kind with optional fields present, absent or null and hostile SDP text (quotes, backslashes, all C0 controls, U+2028/9, astral characters, up to 40 kB) survives to_ws_message/from_ws_message as text and as binary frame; hand-built JSON for null/missing fields and single/list/empty scrape hashes parses to the intended value; identifiers in emitted text are 20 characters <= U+00FF equal to the bytes; identifier strings of 0..40 characters with characters above U+00FF at every position are accepted iff exactly 20 characters <= U+00FF.",
     "level_note": "Trusted: vcore::json reader and the acceptance predicate.",
@@ -173,7 +173,7 @@ PLANS["C05"] = {
     "parallel": 16,
     "steps": lambda tier, seed: ([{"name": "udp_validator", "bin": "udp_validator", "args": ["--rounds", "400000", "--budget_s", "20"]}] if tier == "quick"
                                  else shards("udp_validator", "udp_validator", 16, ["--rounds", "100000000", "--budget_s", "100"])),
-    "min_evaluations": {"quick": 1000000, "thorough": 50000000},
+    "min_evaluations": {"quick": 500000, "thorough": 5000000},
     "assumptions": ["the 2^-32 guessing bound is checked structurally: only an acceptance that persists across three fresh keys is a violation; first-stage chance acceptances are reported"],
     "level_text": "Exploration: for max_connection_age in {0,1,2,59,60,61,120,u32::MAX-1,u32::MAX} and issue/check times on a grid around every boundary (t_issue+age-1/+0/+1, t_check+60/+61, 0, near u32::MAX) the real validator (and a clone, as another socket worker holds) must agree with the reference predicate for ids checked from their own IP (any port, plain and IPv4-mapped forms); ids checked from other addresses, all 64 single-bit and sampled double-bit alterations, ids of a second validator instance and random ids must be rejected unless the acceptance fails to persist across fresh keys.",
     "level_note": "Trusted: the reference predicate; the verif_set_elapsed hook that sets the validator's private whole-second clock.",
@@ -192,7 +192,7 @@ PLANS["C12"] = {
                                  if tier == "quick" else
                                  [{"name": "crash_shards", "bin": "crash_shards", "args": ["--cases", "3000000", "--budget_s", "280"], "timeout_s": 1500}]
                                  + shards("udp_swarm", "udp_swarm", 2, ["--histories", "100000000", "--budget_s", "100"]) + shards("http_swarm", "http_swarm", 2, ["--histories", "100000000", "--budget_s", "100"]) + shards("ws_swarm", "ws_swarm", 2, ["--histories", "100000000", "--budget_s", "100"])),
-    "min_evaluations": {"quick": 500000, "thorough": 5000000},
+    "min_evaluations": {"quick": 300000, "thorough": 2000000},
     "assumptions": ["reverse-proxy mode panics by design when the configured header is absent or unparsable; that path is excluded (deployment precondition)",
                     "allocation bound: peak live bytes during one call <= 512*len + 1 MiB (far above what the JSON tape and serde buffering legitimately need; measured ratio on accepted inputs is reported)"],
     "level_text": "Exploration with sanitizer-style oracles: eleven parser entry points receive valid messages and structure-aware mutations up to the real buffer sizes (8 KiB datagram, 2 KiB HTTP request, 64 KiB WebSocket message / reply); a panic, an abort of the child (stack overflow, allocation failure - attributed through the write-ahead log) or a peak allocation above the bound is a violation. Request handlers run with numwant=i32::MIN, negative left, max peers 0/1, port extremes inside the swarm_diff engines with overflow checks on.",
@@ -211,7 +211,7 @@ PLANS["C04"] = {
                                   {"name": "udp_stress", "bin": "udp_stress", "args": ["--rounds", "3000", "--budget_s", "40"], "timeout_s": 400}] if tier == "quick" else
                                  [{"name": "udp_sched", "bin": "udp_sched", "args": ["--max_leaves", "2000000", "--budget_s", "500"], "timeout_s": 1500}]
                                  + shards("udp_stress", "udp_stress", 12, ["--rounds", "100000000", "--budget_s", "300"], timeout_s=1200)),
-    "min_evaluations": {"quick": 3000, "thorough": 100000},
+    "min_evaluations": {"quick": 2000, "thorough": 15000},
     "assumptions": ["exhaustive only for the listed program shapes and at probe granularity (every shared access lies inside a critical section between two probes)",
                     "liveness restated as bounded progress: no 4 s stall with every thread released (enumeration), no 30 s stall under load (stress)"],
     "level_text": "Exploration, systematic for small programs: (1) twelve program templates of 2-3 threads x 1-3 operations (fresh torrent races, announce vs clean on an expired-only or stopped-empty torrent, stop/announce/clean, scrape vs announce, same key twice, inline<->heap switches raced with clean, two cleaners) are executed under every interleaving of their critical sections by parking threads at the probes; each leaf is a real execution whose replies, final scrape and observer read-out must be linearizable per torrent; a released thread that cannot reach its next probe is a forced switch, nobody runnable is a deadlock witness. (2) 6-12 free-running threads with injected yields/sleeps at the same probes, per-round histories checked by the same checker.",
@@ -237,7 +237,7 @@ PLANS["C10"] = {
         swarm_steps("udp_swarm", "udp_swarm", "quick", quick_budget=10) + swarm_steps("http_swarm", "http_swarm", "quick", quick_budget=10) + swarm_steps("ws_swarm", "ws_swarm", "quick", quick_budget=10)
         if tier == "quick" else
         shards("udp_swarm", "udp_swarm", 4, ["--histories", "100000000", "--budget_s", "100"]) + shards("http_swarm", "http_swarm", 4, ["--histories", "100000000", "--budget_s", "100"]) + shards("ws_swarm", "ws_swarm", 4, ["--histories", "100000000", "--budget_s", "100"])),
-    "min_evaluations": {"quick": 300000, "thorough": 3000000},
+    "min_evaluations": {"quick": 200000, "thorough": 1000000},
     "assumptions": ["clock values stay below u32::MAX (136 years of uptime)", "deadline = the handling worker's time sample + max age, computed over mathematical integers in the reference"],
     "level_text": "Exploration with an exhaustive boundary grid: for each tracker's storage, 8 maximum ages (0..u32::MAX) x 4 announce times x 8 swarm sizes (inline and heap) x 3 positions x seeder/leecher x 5 re-announce offsets x 2 families (udp/http), and peer + pending-offer expiry for ws, with cleaning passes one second before, at and after the deadline and presence read back by scrape and observer announce / late answer; plus random histories with deadlines and cleans interleaved arbitrarily (focus generator with extreme ages).",
     "level_note": "Trusted: reference models; mock clock hook behind ServerStartInstant::seconds_elapsed (http/ws read the clock inside clean / announce).",
@@ -255,7 +255,7 @@ PLANS["C11"] = {
         swarm_steps("udp_swarm", "udp_swarm", "quick", quick_budget=10) + swarm_steps("http_swarm", "http_swarm", "quick", quick_budget=10) + swarm_steps("ws_swarm", "ws_swarm", "quick", quick_budget=10)
         if tier == "quick" else
         shards("udp_swarm", "udp_swarm", 4, ["--histories", "100000000", "--budget_s", "100"]) + shards("http_swarm", "http_swarm", 4, ["--histories", "100000000", "--budget_s", "100"]) + shards("ws_swarm", "ws_swarm", 4, ["--histories", "100000000", "--budget_s", "100"])),
-    "min_evaluations": {"quick": 300000, "thorough": 3000000},
+    "min_evaluations": {"quick": 200000, "thorough": 1000000},
     "assumptions": ["a line is well-formed iff, after trimming, it is 40 hex digits"],
     "level_text": "Exploration with enumerated reload faults: sequences of reloads of generated list files (valid in every spelling, a bad line at any position, missing, directory, non-UTF-8) through the real update_access_list while caches created earlier keep answering; after every reload all probe hashes are queried in all modes through both access paths and must follow the list in force (the previous one after a failed reload). On the storages, histories with list reloads and cleans check that the next clean removes exactly the forbidden torrents.",
     "level_note": "Trusted: reference list parser; the announce-time gate itself lives in the socket workers and is decided by the live engines.",
@@ -270,7 +270,7 @@ PLANS["C20"] = {
     "packages": ["vudp"],
     "parallel": 8,
     "steps": lambda tier, seed: [{"name": "udp_export", "bin": "udp_export", "args": []}] + udp_swarm_steps(tier),
-    "min_evaluations": {"quick": 100000, "thorough": 1000000},
+    "min_evaluations": {"quick": 50000, "thorough": 500000},
     "assumptions": ["a crash is a process abort; power loss (no fsync) is outside the statement", "torrents dropped by the access list in the very pass that writes the export may or may not be listed (don't-care)"],
     "level_text": "Fault enumeration + exploration: (1) after every cleaning pass of random histories (statistics and exports on) the four totals, the per-peer-id tallies obtained by folding the real StatisticsMessage stream with the statistics worker's rule, and the parsed export file equal the reference model; (2) a reader polling the export path during hundreds of exports with stretched gaps only ever sees complete exports in order; (3) a child process is aborted at every individual export step (create, each line, before flush, before rename, after rename) for several sizes and shapes and the path must hold the previous or the new complete file.",
     "level_note": "Trusted: reference model, export-step probes (never inside a lock).",
@@ -305,7 +305,7 @@ PLANS["C06"] = {
     "packages": ["vudp"],
     "parallel": 6,
     "steps": lambda tier, seed: c06_steps(tier),
-    "min_evaluations": {"quick": 20000, "thorough": 1000000},
+    "min_evaluations": {"quick": 10000, "thorough": 100000},
     "assumptions": ["loopback neither duplicates nor reorders; a request counts as received only if the tracker's udp.datagram_seen counter accounts for every datagram sent (otherwise inconclusive)",
                     "which of the tracker's sockets sends a reply is not constrained by the statement (reported as an observation for the io_uring dual-stack case)"],
     "level_text": "Exploration on the live tracker: eight client sockets (six IPv4 hosts, ::1, an IPv4 host through the dual-stack IPv6 socket) send connects, announces (all events, extension bytes), scrapes of 1..100 hashes with known per-torrent counts, answerable and unanswerable malformed requests, truncations, header bit flips and random bytes, with valid / stale (mock clock) / foreign-address / forged / other-tracker-instance / bit-flipped connection ids; every reply is matched to its request by socket and transaction id and checked for count (at most one; exactly one where required), kind, family, scrape order and cut, connect-reply size; datagrams from source port 0 (raw socket) must create no state.",
@@ -355,7 +355,7 @@ PLANS["C16"] = {
     "packages": ["vhttp"],
     "parallel": 4,
     "steps": lambda tier, seed: c16_steps(tier),
-    "min_evaluations": {"quick": 3000, "thorough": 100000},
+    "min_evaluations": {"quick": 1500, "thorough": 20000},
     "assumptions": ["TLS, pipelining and reverse-proxy mode (C03) are out of scope here", "mock clock frozen: no expiry during a run"],
     "level_text": "Exploration on the live tracker: for socket_workers x swarm_workers in {1,2,3}^2 and keep-alive on/off (three configurations in quick, all eighteen in thorough) five actors (IPv4 hosts through the plain and the dual-stack listener, ::1) send announces (all events, numwant absent/0/n, unknown keys) and scrapes (hashes on one / several / all swarm workers, repeated, beyond max_scrape_torrents) over kept-alive or fresh connections, a third of them split across TCP segments with the cut walking over every byte; every reply must be one HTTP/1.1 200 response whose Content-Length equals the bytes that follow and whose body is one complete canonical bencode value equal to the reference tracker's reply, while hostile connections (garbage, 2049-byte requests, bad escapes, POST, never-completed requests) come and go; then 8 connections run concurrently and each torrent's history must be linearizable.",
     "level_note": "Trusted: framing monitor, strict bencode decoder, reference model, linearizability checker.",
@@ -432,7 +432,7 @@ PLANS["C17"] = {
     "packages": ["vws"],
     "parallel": 4,
     "steps": lambda tier, seed: c17_steps(tier),
-    "min_evaluations": {"quick": 400, "thorough": 20000},
+    "min_evaluations": {"quick": 200, "thorough": 3000},
     "assumptions": ["clients read promptly (fewer than 16 unread messages per connection) so that the tracker's documented back-pressure drops cannot be mistaken for loss",
                     "a second peer id is 'refused with an error' if an error message arrives or the tracker drops the connection (the message races with the teardown; delivery is reported as an observation), and never an announce reply",
                     "an empty info-hash list may be answered by an error or an empty scrape reply"],
@@ -458,7 +458,7 @@ PLANS["C03"] = {
         + [http_live("http_addr_2x2", "address", ["--socket_workers", "2", "--swarm_workers", "2", "--rounds", "40"]), http_live("http_addr_proxy_2x2", "address", ["--proxy", "--socket_workers", "2", "--swarm_workers", "2", "--rounds", "40"]),
            ws_live("ws_addr_3x3", "address", ["--socket_workers", "3", "--swarm_workers", "3", "--rounds", "40"])]
         + swarm_steps("udp_swarm", "udp_swarm", "quick", quick_budget=20) + swarm_steps("http_swarm", "http_swarm", "quick", quick_budget=20)),
-    "min_evaluations": {"quick": 100000, "thorough": 300000},
+    "min_evaluations": {"quick": 50000, "thorough": 100000},
     "assumptions": ["only loopback source addresses can be produced (127.0.0.0/8, ::1 and fd00::/8 addresses added to lo)", "in reverse-proxy mode the last header value is written by the proxy and is syntactically valid (the tracker panics by design otherwise)", "TLS paths are not exercised"],
     "level_text": "Exploration: (1) canonicalisation code of all three trackers on boundary address forms vs std; (2) reverse-proxy header extraction on generated header blocks vs 'last value of last occurrence, trimmed'; (3) live: IPv4 hosts announce through the plain socket and through the dual-stack socket with arbitrary in-request ip fields (udp ip_address, http ip= / ipv6= keys), IPv6 hosts through ::1 and added fd00:: addresses; observers on each socket must be handed exactly the (real source ip, announced port) pairs, one and the same IPv4 peer for a host reached both ways, and scrapes through each socket type see the right family; ipv4-only / ipv6-only / dual-stack socket configurations, mio and io_uring, http with a harness-side proxy, ws family classification.",
     "level_note": "Trusted: std's to_ipv4_mapped, the harness's wire decoders.",
